@@ -1068,7 +1068,34 @@ func ruleC16Decide(c *Ctx) {
 	for _, fn := range c16Hooks(c) {
 		name := FnName(fn)
 		ok, why, n := true, "", 0
-		for _, call := range callsIn(fn) {
+		// the hook itself and the helpers of its package it hands its own constraint and context on to
+		// (a predicate that could not be expanded in place because it is an operand of && / ||)
+		calls := callsIn(fn)
+		seenFn := map[*ssa.Function]bool{fn: true}
+		var follow func(from *ssa.Function, depth int)
+		follow = func(from *ssa.Function, depth int) {
+			for _, call := range callsIn(from) {
+				sc := call.Common().StaticCallee()
+				if sc == nil || sc.Blocks == nil || sc.Pkg != fn.Pkg || seenFn[sc] || depth > 2 {
+					continue
+				}
+				passesOwn := len(call.Common().Args) > 0
+				for _, a := range call.Common().Args {
+					if _, isPrm := a.(*ssa.Parameter); !isPrm {
+						passesOwn = false
+					}
+				}
+				if !passesOwn {
+					continue
+				}
+				seenFn[sc] = true
+				c.Analysed(FnName(sc))
+				calls = append(calls, callsIn(sc)...)
+				follow(sc, depth+1)
+			}
+		}
+		follow(fn, 0)
+		for _, call := range calls {
 			if !isCallTo(call, toBool) {
 				continue
 			}
